@@ -23,7 +23,7 @@ ASSUMPTIONS = ["tolerance 1e-7 absolute on purities (all in [0,1])", "4^n two-ro
 def cases(draw, tier):
     t = draw(st.sampled_from(gen.TYPES))
     nmax = 3 if tier == "quick" else 4
-    sc = draw(gen.state_case(types=[t], n=(1, nmax), nh=(1, 3), na=(1, 3), scales=[0.05, 0.5, 2.0, 2.0, 8.0], bound=60.0))
+    sc = draw(gen.state_case(types=[t], n=(1, nmax), nh=(1, 3), na=(1, 3), scales=[0.05, 0.5, 2.0, 2.0, 8.0, 30.0], bound=80.0))
     return {"state": sc, "batch": draw(gen.index_list(sc["n"], 3, 7)) if draw(st.integers(0, 5)) else draw(gen.index_list(sc["n"], 60, 90)), "fmt": draw(st.integers(0, 2))}
 
 
